@@ -135,6 +135,17 @@ func runWithdraw(ctx *action.Context, tx action.RawTx) (bool, action.Response) {
 		return false, action.Response{Log: evidence.ErrFrozenValidator.Error()}
 	}
 
+	// the withdrawable amount is kept per stake address only: the validator named by the transaction
+	// proves nothing, so nothing may leave while ANY validator this stake address staked with is frozen
+	frozenOrigin := false
+	ctx.EvidenceStore.IterateSuspiciousValidators(func(lvh *evidence.LastValidatorHistory) bool {
+		frozenOrigin = frozenOrigin || ctx.Delegators.HasValidatorDelegation(lvh.Address, draw.StakeAddress)
+		return frozenOrigin
+	})
+	if frozenOrigin {
+		return false, action.Response{Log: evidence.ErrFrozenValidator.Error()}
+	}
+
 	coin := draw.Stake.ToCoinWithBase(ctx.Currencies)
 
 	err = ctx.Delegators.Withdraw(draw.ValidatorAddress, draw.StakeAddress, draw.Stake.Value)
